@@ -81,3 +81,18 @@ Definition run_knn_predict (k n skip : Z) (eps mn mx : float) (d e cost : list f
   let densx := query_density FOps 1000 eps mn mx kk ee in
   let g := mkKnn [] [] [] [] [] cost [] [] [] [] [] 0%float 0%nat in
   sel_code (knn_pick PrimFloat.ltb 0%float fmaxF (PrimFloat.opp fmaxF) g kk densx ds ns).
+
+(* a whole batch, threading neighbours_idx as the code does; each query = (distances, exp terms) over the training nodes *)
+Definition run_knn_predict_batch (k n : Z) (eps mn mx : float) (cost : list float)
+           (qs : list (list float * list float)) : list Z :=
+  let kk := zn k in
+  let nn := zn n in
+  let g := mkKnn [] [] [] [] [] cost [] [] [] [] [] 0%float 0%nat in
+  let step := fun (st : list nat * list Z) (q : list float * list float) =>
+    let '(ns0, out) := st in
+    let '(d, e) := q in
+    let '(ds, ns) := knn_scan PrimFloat.ltb fmaxF kk nn (fun j => nth j d 0%float) None ns0 in
+    let ee := fun l => if PrimFloat.eqb (nth l ds fmaxF) fmaxF then 0%float else nth (nth l ns 0%nat) e 0%float in
+    let densx := query_density FOps 1000 eps mn mx kk ee in
+    (ns, out ++ [sel_code (knn_pick PrimFloat.ltb 0%float fmaxF (PrimFloat.opp fmaxF) g kk densx ds ns)]) in
+  snd (fold_left step qs (repeat 0%nat (S kk), [])).
